@@ -154,8 +154,9 @@ impl SwiftField for Field59F {
     fn to_swift_string(&self) -> String {
         let mut result = String::from(":59F:");
 
+        // The line break after the party identifier is added with the first address line
         if let Some(ref id) = self.party_identifier {
-            result.push_str(&format!("/{}\n", id));
+            result.push_str(&format!("/{}", id));
         }
 
         for (i, line) in self.name_and_address.iter().enumerate() {
